@@ -4,7 +4,7 @@
 import json, os, re, glob
 V = os.path.dirname(os.path.dirname(os.path.abspath(__file__)))
 rows = []
-for d in sorted(glob.glob(os.path.join(V, "seeded", "C*r[23]-m*"))):
+for d in sorted(glob.glob(os.path.join(V, "seeded", "C*r[234]-m*"))):
     sid = os.path.basename(d)
     m = json.load(open(os.path.join(d, "meta.json"))) if os.path.exists(os.path.join(d, "meta.json")) else {}
     title = ""
